@@ -91,6 +91,36 @@ Proof.
   unfold in_buffer, M64. lia.
 Qed.
 
+(* ------------------------------------------------------------------ pe_parse_exports: parallel tables *)
+(* gen/GenBounds.v holds, as written in pe.c now: the two counts, the guard of each of the three tables
+   (ordinals: WORD, function_addrs and names: DWORD) in terms of the bytes available from the table to
+   the end of the data, and for every indexed access the bound its index is below at that point (loop
+   bounds and the conjuncts to the LEFT of the access).  Every access lies in the data. *)
+Lemma exports_tables_in_bounds_l : forall nfun_raw nn_raw avail_o avail_f avail_n,
+  is_u32 nfun_raw -> is_u32 nn_raw -> is_u64 avail_o -> is_u64 avail_f -> is_u64 avail_n ->
+  let nexp := exp_number_of_exports nfun_raw in
+  let nnames := exp_number_of_names nexp nn_raw in
+  (exp_ordinals_rejects avail_o nexp nnames nn_raw = false ->
+     forall j, 0 <= j < exp_ordinals_index_bound nexp nnames -> sizeof_WORD * (j + 1) <= avail_o) /\
+  (exp_functions_rejects avail_f nexp nnames nn_raw = false ->
+     forall i, 0 <= i < exp_functions_index_bound nexp nnames -> sizeof_DWORD * (i + 1) <= avail_f) /\
+  (exp_names_rejects avail_n nexp nnames nn_raw = false ->
+     forall j, 0 <= j < exp_names_index_bound nexp nnames -> sizeof_DWORD * (j + 1) <= avail_n).
+Proof.
+  intros nfun_raw nn_raw avail_o avail_f avail_n Hf Hn Ho Hfa Hna nexp nnames.
+  assert (Hnexp : 0 <= nexp <= MAX_PE_EXPORTS /\ nexp <= nfun_raw).
+  { subst nexp. unfold exp_number_of_exports, MAX_PE_EXPORTS, is_u32, M32 in *. unfold_sem.
+    destruct (nfun_raw <? 16384) eqn:E; b2p; lia. }
+  assert (Hnn : 0 <= nnames <= nexp /\ nnames <= nn_raw).
+  { subst nnames. unfold exp_number_of_names, is_u32, M32 in *. unfold_sem.
+    destruct (nn_raw <? nexp) eqn:E; b2p; lia. }
+  clearbody nexp nnames. unfold MAX_PE_EXPORTS in Hnexp.
+  repeat split; intros H k Hk;
+    unfold exp_ordinals_rejects, exp_functions_rejects, exp_names_rejects,
+           exp_ordinals_index_bound, exp_functions_index_bound, exp_names_index_bound, sizeof_WORD, sizeof_DWORD in *;
+    unfold_sem; b2p; timeout 60 modlia.
+Qed.
+
 (* ------------------------------------------------------------------ macho load-command loops *)
 (* loop invariant: command = data + parsed_size, parsed_size <= size.  The guards give: the 8-byte
    load command header and the whole command lie in the buffer, cmdsize >= 8 (progress), and the
@@ -217,6 +247,12 @@ Proof. nonvac. Qed.
 Example is_valid_ptr_sound_nonvacuous :
   addr_space_ok 4096 100 /\ is_u64 4100 /\ is_u64 8 /\ is_valid_ptr 4096 100 4100 8 = true /\
   is_valid_ptr 4096 4096 (M64 - 8) 16 = false.
+Proof. nonvac. Qed.
+Example exports_tables_nonvacuous :
+  is_u32 64 /\ is_u32 1 /\ exp_number_of_exports 64 = 64 /\ exp_number_of_names 64 1 = 1 /\
+  exp_ordinals_rejects 128 64 1 1 = false /\ exp_ordinals_rejects 2 64 1 1 = true /\
+  exp_functions_rejects 256 64 1 1 = false /\ exp_names_rejects 4 64 1 1 = false /\
+  0 < exp_ordinals_index_bound 64 1 /\ 0 < exp_functions_index_bound 64 1 /\ 0 < exp_names_index_bound 64 1.
 Proof. nonvac. Qed.
 Example macho_cmd_ok_sound_nonvacuous :
   addr_space_ok 4096 100 /\ 4096 + 100 + sizeof_yr_load_command_t < M64 /\ is_u32 24 /\ 0 <= 28 <= 100 /\ 4124 = 4096 + 28 /\
